@@ -1424,10 +1424,9 @@ class ServiceClass:
         try:
             for result in handler:
                 # Ensure we are still associated
-                if (
-                    self.assoc.acse.is_aborted()
-                    or self.assoc.acse.is_release_requested()
-                ):
+                # (the A-RELEASE indication is left in place for the reactor,
+                #   which answers it once the service class returns)
+                if self.assoc.acse.is_aborted() or self.assoc._is_release_pending():
                     LOGGER.debug(
                         "A-ABORT or A-RELEASE-RQ received during Q/R sub-operations"
                     )
